@@ -2,12 +2,13 @@
 """tools/seed_keep.py Cxx A|B — after tools/seed_try.py confirmed a seeded change, keep it under /verif/seeded/<id>/."""
 import json, os, re, shutil, sys
 pid, letter = sys.argv[1], sys.argv[2]
-src = '/tmp/wt_out/%s/%s' % (pid, letter)
+src = '%s/%s/%s' % (os.environ.get('SEED_SRC_ROOT', '/tmp/wt_out'), pid, letter)
+keep_as = os.environ.get('SEED_KEEP_AS', letter)       # second-round changes are kept as C / D
 res = json.load(open(os.path.join(src, 'try_result.json')))
 ok = res['suite_with_patch'].startswith('32 passed') and res['demo_with_patch_exit'] == 1 and res['demo_without_patch_exit'] == 0
 if not ok:
     print('NOT CONFIRMED', res); sys.exit(1)
-dst = '/verif/seeded/%s-%s' % (pid, letter)
+dst = '/verif/seeded/%s-%s' % (pid, keep_as)
 os.makedirs(dst, exist_ok=True)
 shutil.copy(os.path.join(src, 'patch.diff'), dst)
 # the demonstration, with the agent's scratch path made overridable
@@ -18,7 +19,7 @@ open(os.path.join(dst, 'NOTES.md'), 'w').write(notes)
 files = sorted(set(re.findall(r'^\+\+\+ b/(\S+)', open(os.path.join(src, 'patch.diff')).read(), re.M)))
 caught = [r['check'] for r in res['ran'] if r['exit'] == 1 and r['violations'] > 0]
 meta = dict(
-    id='%s-%s' % (pid, letter), property=pid, files=files,
+    id='%s-%s' % (pid, keep_as), property=pid, files=files,
     author='independent sub-agent given only the property text and a scratch worktree (/tmp/wt/%s); nothing from /verif' % pid,
     what_it_needs_to_manifest=(re.search(r'(?is)(needs? to manifest|when it (shows|manifests)|what (is|it) need[s]?[^\n]*)[:\s]*(.{40,600}?)(\n\n|\n#)', notes) or [None]*5)[4] or 'see NOTES.md',
     confirmed=dict(how='tools/seed_try.py: patch applied to a scratch copy of /repo HEAD under /tmp (removed afterwards); existing suite; demo with and without the patch',
